@@ -123,6 +123,16 @@ def run(ctx):
         "via_ir": n // 5, "via_ctx": n // 3, "via_implement": 3 if quick else 30,
         "route_new": n // 10, "route_parse": n // 10, "route_expr": n // 40, "route_ctx_expr": n // 40,
         "route_lookup": n // 10, "route_implement": 3 if quick else 30, "type_foreign": 3,
+        # user text over the whole alphabet, counted on what REACHED the printer (seeded change C12-6: a text used as
+        # a format string): per position copied into the stub file, the texts with characters special to some layer
+        "judged_stub_percent": n // 25, "judged_stub_quote_backslash": n // 10, "judged_stub_backquote": n // 80,
+        "judged_stub_comment_marker": n // 50, "judged_stub_nonascii": n // 4,
+        "judged_pragma_arg_percent": n // 25, "judged_pragma_arg_quote_backslash": n // 50,
+        "judged_pragma_arg_backquote": n // 100, "judged_pragma_arg_comment_marker": n // 200, "judged_pragma_arg_nonascii": n // 20,
+        "judged_doc_percent": n // 8, "judged_doc_quote_backslash": n // 40, "judged_doc_backquote": n // 100,
+        "judged_doc_nonascii": n // 5, "judged_cfg_percent": n // 8, "judged_cfg_quote_backslash": n // 15,
+        "judged_cfg_backquote": n // 30, "judged_cfg_nonascii": n // 25, "judged_pkg_nonascii": n // 10,
+        "judged_cons_nonascii": n // 25, "tag_raw_literal": n // 20,
     })
     nb = 40 if quick else 1500
     st = differential_fmt(ctx, "c12build", nb, extra=["-work", ctx.dir],
@@ -130,6 +140,8 @@ def run(ctx):
     floors(ctx, "c12build", st, {
         "pairs": nb * 9 // 10, "pair_both": nb // 2, "pair_linked": nb // 2, "pair_neither": 1,
         "param_loaded": nb // 2, "result_stored": nb // 2,
+        "judged_stub_percent": nb // 10, "judged_stub_quote_backslash": nb // 8, "judged_stub_backquote": nb // 20,
+        "judged_stub_nonascii": nb // 4,
     })
     ctx.coverage["proof_partial"] = (
         "PROVED (Lean, all inputs): the text handed to go/format declares the configured package once and each function of the file "
@@ -140,15 +152,27 @@ def run(ctx):
         "(stubs_match_asm); the acceptors run on real output are sound for their declarative statements (acceptStubs_sound, "
         "acceptCons_sound) and accept the model's own text (acceptStubs_model); the identifiers read from the stub bytes are the symbols of "
         "the TEXT lines (stub_names_are_text_symbols); the driver's executable check of the token hypotheses is sound (wfStubsB_sound; run on "
-        "every case as `wf-stubs`). NOT PROVED, measured on generated cases only: that "
+        "every case as `wf-stubs`); user text is transported VERBATIM, for all strings: the lines of the text contain the Stub() text, "
+        "`//go:`+directive+arguments, `// `+doc line (only trailing white space trimmed: commentText_verbatim), the package name, the "
+        "constraint lines and the generated-code comment (tool name / command line: generatedWarning_verbatim) character for character, and "
+        "the lines starting with `func ` are exactly the Stub() texts (stub_tokens_verbatim); read paragraph by paragraph the declarations "
+        "are the Stub() texts (declTexts_stubLines, acceptVerbatim_model); the acceptor run on the REAL file as `accept-verbatim` is sound "
+        "(acceptVerbatim_sound: first line = generated-code comment, every declaration = Stub() up to the layout characters blank/tab/"
+        "newline/`;`, every other character with its multiplicity: squash_count); format_string_corrupts_declaration is the proved witness "
+        "that a declaration used as a format string passes acceptStubs and is rejected by acceptVerbatim. NOT PROVED, measured on generated cases only: that "
         "go/format preserves all this, that the result is valid gofmt-stable Go, type identity of the printed signature "
         "(types.WriteSignature is opaque), compile/link/vet. newline_injects_declaration is a proved NEGATIVE witness (finding).")
     ctx.coverage["rule"] = (
         "case descriptors (generated; forced witnesses; corpus/C12): 0-15 functions with signatures from a type grammar (basic incl. any/error, "
-        "named, alias, instantiated generic, pointer, slice, array, struct with blank/grouped/tagged/embedded fields, interface literals with "
-        "methods/embedding, func incl. variadic, map/chan in all directions, types of other packages; unnamed/named/blank/grouped parameters and "
-        "results, variadic) x doc lines (incl. %, indentation, list/heading/link syntax, comment/keyword look-alikes) x 0-4 directives of 10 kinds "
-        "x 0-5 constraint expressions of 17 x Config (4 names, 6 Argv shapes), data sections interleaved. Routes: ir.File built by hand; "
+        "named (incl. non-ASCII names), alias, instantiated generic, pointer, slice, array, struct with blank/grouped/tagged/embedded fields, "
+        "interface literals with methods/embedding, func incl. variadic, map/chan in all directions with generated components, types of other "
+        "packages; unnamed/named/blank/grouped parameters and results incl. non-ASCII identifiers, variadic). STRUCT TAGS are arbitrary Go "
+        "strings composed from an alphabet of everything special to some layer (fmt verbs incl. %%, %!, %[1]d, %*d; both quoting characters; "
+        "backslash and escape look-alikes; `//`, `/*`, `*/`; newline, tab, CR, NUL, DEL; `;{}():,`; non-ASCII incl. NBSP, U+2028, BOM, "
+        "astral; bytes that are not UTF-8), written as raw or interpreted literals, on named, grouped, blank and embedded fields, also inside "
+        "map keys, func and chan types x doc lines (incl. %, indentation, list/heading/link syntax, comment/keyword look-alikes, and words from "
+        "the same alphabet) x 0-5 directives of 13 kinds with arguments from the alphabet x 0-5 constraint expressions of 19 (incl. non-ASCII "
+        "tags) x Config (9 tool names, Argv shapes with words from the alphabet) x 7 package names (incl. non-ASCII), data sections interleaved. Routes: ir.File built by hand; "
         "build.Context (ConstraintExpr, Function, Signature/SignatureExpr, Doc, Pragma); gotypes.NewSignature / ParseSignatureInPackage / "
         "ParseSignature / LookupSignature; build.Context.Package + Implement on an on-disk package (a few per run). The EXPECTED signature is "
         "evaluated by the harness with go/types from the expression, never read back from avo. `wf-stubs`: the token hypotheses of the text-level theorems evaluated by harness and driver (hold on all cases but the newline "
@@ -159,13 +183,19 @@ def run(ctx):
         "signature, doc words in order, directives last in the doc group and attached, go/format idempotent); c12build: stub+asm+helper types "
         "as packages of one module with bodies that load every named parameter and store every named result: go list (same constraints select "
         "both files), go build, go vet -asmdecl, and an executable referencing every function the stub DECLARES (link: declared => defined). "
-        "Lower bounds on the number of judged cases per class are obligations. non-trivial = file has at least one function")
+        "`accept-verbatim`: Lean acceptor on the real output (generated-code comment as given; every declaration equal to Stub() up to layout). "
+        "Lower bounds on the number of judged cases per class are obligations, incl. per position (Stub() text, directive argument, doc line, "
+        "tool name/command line, package, constraint line) the number of texts that REACHED the printer with %, quote/backslash, backquote, "
+        "comment markers, non-ASCII. non-trivial = file has at least one function")
     ctx.assumptions += [
         "printer.NewStubs is go/format applied to the modelled text; format.Source, types.WriteSignature and the compiler are opaque toolchain functions (measured, not modelled)",
         "the Lean theorems about the TEXT hold under explicit hypotheses: no newline in any token (doc line, directive, argument, Stub() text, package, constraint line), Stub() = `func NAME(`… with no `(` in NAME; avo does not establish them for Doc/Pragma (findings C12-doc-newline, C12-pragma-newline)",
         "out of the generated domain (not judged): two functions of the same name, functions named init/main/_ or a Go keyword, signatures with receivers or type parameters, a package handed to NewSignature that is a second load of the function's own package (printed qualified), Config.Pkg that is a keyword",
         "doc text is compared as the sequence of words with list markers normalised (as a multiset when the doc has link definitions): go/format re-indents, renumbers list markers and moves link definitions",
         "linkability and vet are measured on the generated sample only (parameters/results read/written through avo's Load/Store at a primitive leaf; blank and unnamed ones are not referenced; types of other packages are not used in built pairs)",
+        "`accept-verbatim` takes avo's own Function.Stub() as the text to be transported (a corruption INSIDE Stub()/Signature.String is judged by accept-gostub: types.Identical incl. struct tags against the signature the harness evaluated from the expression)",
+        "directive NAMES are sampled from [a-z0-9]+ only (go/format does not treat `//go:` followed by another character as a directive); doc words avoid nothing, pragma arguments have no leading/trailing blank",
+        "in pairs that go through vet, parameter/field names use no letters U+0080..U+00FE: vet's asmdecl lexer (`[a-zA-Z0-9_\\xFF-\\x{10FFFF}]+`) reads avo's correct `ñ0+0(FP)` as `0+0(FP)`; such names are sampled in the type-checked part only",
         "the sticky-error path of the printer (buildtags.Format failing) is not modelled: such cases are dropped (bounded by the sample floors)",
     ]
     ctx.trusted += [
